@@ -55,6 +55,8 @@ class H:
         self.pending_flush: List = []
         self.closing = None
         self.closing_checked = False
+        self.fault_injected = False
+        self.raising_cb_ids = set()
         self.cb_gates: Dict = {}
         self.cb_live = set()
         kw = {} if size is None else {"pool_size": size}
@@ -122,9 +124,18 @@ class H:
         finally:
             self.cb_live.discard(key)
 
+    def raising_end(self, i):
+        self.on_end(i)
+        self.fault_injected = True
+        raise RuntimeError(f"end callback of {i} fails")
+
     def callbacks(self):
-        slow = self.rnd.random() < 0.4
-        return (self.slow_end, self.slow_cancel) if slow else (self.on_end, self.on_cancel)
+        r = self.rnd.random()
+        if r < 0.35:
+            return (self.slow_end, self.slow_cancel)
+        if r < 0.5:
+            return (self.raising_end, self.on_cancel)
+        return (self.on_end, self.on_cancel)
 
     async def op_release_callback(self):
         if self.cb_live:
@@ -133,7 +144,12 @@ class H:
             self.log.append(f"callback {key} returns")
 
     def v(self, props, what):
-        self.viol.append({"props": props if isinstance(props, list) else [props], "what": what})
+        props = list(props) if isinstance(props, list) else [props]
+        # C12 "a failing task or callback harms only itself": once a failure was injected, lost slots / lost invocations /
+        # lost callbacks of OTHER tasks are also violations of C12
+        if self.fault_injected and set(props) & {"C02", "C03", "C04", "C05", "C08"} and "C12" not in props:
+            props.append("C12")
+        self.viol.append({"props": props, "what": what})
 
     # ---- operations --------------------------------------------------------------------------------------
     def spawner_pending(self) -> bool:
@@ -195,6 +211,7 @@ class H:
             return
         me = self.rnd.choice(sorted(self.live))
         self.live[me]["fail"] = fail
+        self.fault_injected = self.fault_injected or fail
         self.gates[me].set()
         self.log.append(f"finish {me}{' failing' if fail else ''}")
 
